@@ -159,5 +159,5 @@ def prop_cross(case, ctx):
 
 
 SUBCHECKS = [
-    Sub("cross_exact", prop_cross, strategy=cross_cases, quick=60, thorough=1200),
+    Sub("cross_exact", prop_cross, strategy=cross_cases, quick=200, thorough=2000),
 ]
